@@ -476,7 +476,8 @@ pub fn tpl_program(r: &mut Rng) -> String {
     let (c1, c2, c3, c4) = (cs[0], cs[1], cs[2], cs[3]);
     let n = r.range(2, 9);
     // shapes that took outside eyes to discover get extra weight
-    let shape = match r.below(22) {
+    let shape = match r.below(24) {
+        22 | 23 => 101,
         16 | 17 | 18 => 15,
         19 => 0,
         20 => 4,
@@ -485,6 +486,19 @@ pub fn tpl_program(r: &mut Rng) -> String {
         x => x,
     };
     match shape {
+        // many columns: more than eight in a select, a partition, a sort, an exclusion list
+        101 => {
+            let k = r.range(9, 14);
+            let all: Vec<String> = (0..k).map(|i| format!("{}{}", cs[i % cs.len()], if i >= cs.len() { "_2" } else { "" })).collect();
+            let sel = all.join(", ");
+            let part = all[..k - 1].join(", ");
+            match r.below(4) {
+                0 => format!("from {t} | select {{{sel}}} | group {{{part}}} (take 1)\n"),
+                1 => format!("from {t} | select {{{sel}}} | group {{{part}}} (sort {{{}}} | take 1) | sort {{{part}}}\n", all[k - 1]),
+                2 => format!("from {t} | select !{{{sel}}} | join {u} (=={c1}) | select !{{{part}}} | take {n}\n"),
+                _ => format!("from {t} | derive {{{}}} | group {{{part}}} (aggregate {{n = count this}}) | sort {{{part}}} | take {n}\n", all.iter().map(|c| format!("{c}_x = {c}")).collect::<Vec<_>>().join(", ")),
+            }
+        }
         // an expression whose one-line rendering is wider than 65 535 columns (whatever
         // renders it for a message or a log record must cope)
         100 => {
@@ -1103,11 +1117,71 @@ impl<'a> Gen<'a> {
         }
     }
 
+    /// Another special history shape: a query built up step by step, the way somebody
+    /// writes it — first each of its parts on its own (in some order), then the whole.
+    /// Process-wide state that remembers *names* or *shapes* in the order it first saw them
+    /// shows when the whole is finally compiled.
+    fn plan_b_incremental(&self, s: u64, r: &mut Rng) -> Plan {
+        let t = r.pick(TABLES).to_string();
+        let mut cs: Vec<&str> = COLS.to_vec();
+        r.shuffle(&mut cs);
+        let base = cs[0];
+        let mut names: Vec<&str> = NEW.to_vec();
+        r.shuffle(&mut names);
+        let k = r.range(2, 4);
+        let parts: Vec<String> = (0..k).map(|i| format!("{} = {base} + {}", names[i], i + 1)).collect();
+        let tail = match r.below(3) {
+            0 => ", this.*",
+            1 => "",
+            _ => ", this.*",
+        };
+        let suffix = match r.below(3) {
+            0 => "",
+            1 => " | select this",
+            _ => " | sort this.* | take 3",
+        };
+        let mk = |ps: &[String]| format!("from {t} | select {{{base}}} | derive {{{}{tail}}}{suffix}\n", ps.join(", "));
+        let mut order: Vec<usize> = (0..k).collect();
+        r.shuffle(&mut order);
+        let entry = r.below(3);
+        let mkop = |src: String| match entry {
+            0 => Op::Rq { src },
+            1 => Op::Compile {
+                src,
+                opts: Opts::plain("sql.any"),
+            },
+            _ => Op::Staged {
+                src,
+                opts: Opts::plain("sql.any"),
+            },
+        };
+        let mut calls: Vec<Call> = order.iter().map(|&i| Call::plain(mkop(mk(&parts[i..i + 1])))).collect();
+        calls.push(Call::plain(mkop(mk(&parts))));
+        Plan {
+            stratum: "B".into(),
+            exec_seed: s,
+            shuttle: false,
+            engine: String::new(),
+            hash_base: 0,
+            env_before: None,
+            threads: vec![calls],
+            sched: Sched::default(),
+            log_yield_ppm: 0,
+            sentinel: vec![],
+            keep_log: false,
+            heap_perturb: 0,
+            alloc_yield_mean: 0,
+            clock_step_ns: 0,
+        }
+    }
+
     pub fn plan_b(&self, i: u64, panickers: &[String]) -> Plan {
         let s = mix3(self.verif_seed, 0xB, i);
         let mut r = Rng::new(s);
-        if r.below(10) == 0 {
-            return self.plan_b_matrix(s, &mut r);
+        match r.below(20) {
+            0 | 1 => return self.plan_b_matrix(s, &mut r),
+            2 => return self.plan_b_incremental(s, &mut r),
+            _ => {}
         }
         let nthreads = *r.pick(&[1usize, 1, 2, 3]);
         let fault_panic_inj = r.below(2) == 0;
